@@ -240,7 +240,7 @@ theorem storeRuns_eq {β : Type} (runs : List (List β)) : storeRuns runs = some
         · simp only [Option.some.injEq] at h1; rw [← h1]
         · cases h1
       · cases h1
-  unfold storeRuns
+  unfold storeRuns storeRunsLogged
   rw [h1]
   simp only
   unfold offsetsDecode at h3
